@@ -768,8 +768,8 @@ func checkAndDeleteKey(ctx context.Context,
 	if err = backoff.Retry(func() error {
 		var e error
 		attrs, e = blob.GetAttr(ctx, key)
-		if !errors.Is(e, status.ErrNotExists) {
-			return err
+		if e != nil && !errors.Is(e, status.ErrNotExists) {
+			return e
 		}
 
 		return nil
@@ -777,6 +777,9 @@ func checkAndDeleteKey(ctx context.Context,
 		backoff.WithContext(insistantBackoff(), ctx),
 	); err != nil {
 		logger.Error("retrieving blob attributes", zap.Error(err))
+
+		// without the blob's update time, we can't tell whether it is more recent than the index: don't delete
+		return err
 	}
 
 	// the blob has been created after the index: skip
